@@ -108,11 +108,10 @@ def rel_or_abs_import(module: str) -> ModuleType:
         path, module = os.path.split(path)
     if module.endswith(".py"):
         module = module[:-3]
-    if path:
-        # full path given, try that
-        sys.path.append(os.path.realpath(path))
-    else:
-        sys.path.append(os.path.realpath("."))
+    # search the given directory (or the current one) first, so that a module of the
+    # same name elsewhere on sys.path does not shadow the requested file
+    search_dir = os.path.realpath(path) if path else os.path.realpath(".")
+    sys.path.insert(0, search_dir)
     try:
         return importlib.import_module(module)
     except ImportError:
@@ -122,7 +121,7 @@ def rel_or_abs_import(module: str) -> ModuleType:
             log.error("From: %s", __file__)
             raise
     finally:
-        sys.path.pop()
+        sys.path.remove(search_dir)
     # if we have not returned or raised by now, the import was unsuccessful and module
     # was a name only also try to import from 'interestingness'
     try:
